@@ -157,12 +157,17 @@ def linkMsg (l : Link) : Field := Field.msg 2 (linkFields l)
 theorem nodeFields_eq (ls : List Link) (d : Option Bytes) :
     nodeFields ls d = (sortLinks (ls.filter fun l => cidDefined l.cid)).map linkMsg ++ dataFields d := rfl
 
-theorem linkFromFields_linkFields (l : Link) (hc : cidDefined l.cid = true) :
-    linkFromFields (linkFields l) none none none = some (normLink l) := by
-  have : l.cid.isEmpty = false := by simpa [cidDefined] using hc
-  simp [linkFields, linkFromFields, Field.byts, Field.vint, this, normLink]
+/-- the bytes are exactly one well-formed CID (what every Go `cid.Cid` value is) -/
+def cidWf (c : Bytes) : Prop := parseCid c = some c
 
-theorem decodeLink_encode (l : Link) (hc : cidDefined l.cid = true)
+instance : DecidablePred cidWf := fun c => inferInstanceAs (Decidable (parseCid c = some c))
+
+theorem linkFromFields_linkFields (l : Link) (hc : cidWf l.cid) :
+    linkFromFields (linkFields l) none none none = some (normLink l) := by
+  unfold cidWf at hc
+  simp [linkFields, linkFromFields, Field.byts, Field.vint, hc, normLink]
+
+theorem decodeLink_encode (l : Link) (hc : cidWf l.cid)
     (hlen : (encodeMsg (linkFields l)).length < 2 ^ 64) :
     decodeLink (encodeMsg (linkFields l)) = some (normLink l) := by
   have hwf : ∀ f ∈ linkFields l, f.wf := by
@@ -232,7 +237,8 @@ theorem nodeFields_wf (ls : List Link) (d : Option Bytes) (hlen : (encodePB ls d
       | some c => simp [dataFields, Field.byts] at h; subst h; trivial
 
 /-- decoding an encoding returns the sorted (defined) links with clamped sizes, and the data -/
-theorem decodePB_encodePB (ls : List Link) (d : Option Bytes) (hlen : (encodePB ls d).length < 2 ^ 64) :
+theorem decodePB_encodePB (ls : List Link) (d : Option Bytes) (hlen : (encodePB ls d).length < 2 ^ 64)
+    (hcid : ∀ l ∈ ls, cidWf l.cid) :
     decodePB (encodePB ls d) =
       some ((sortLinks (ls.filter fun l => cidDefined l.cid)).map normLink, d) := by
   have hwf := nodeFields_wf ls d hlen
@@ -243,8 +249,7 @@ theorem decodePB_encodePB (ls : List Link) (d : Option Bytes) (hlen : (encodePB 
   · simp
   · intro l hl
     apply decodeLink_encode l
-    · have := (List.mem_filter.1 (mem_sortLinks.1 hl)).2
-      exact this
+    · exact hcid l (List.mem_filter.1 (mem_sortLinks.1 hl)).1
     · exact linkMsg_len_of_node ls d hlen l hl
 
 theorem filter_defined_of_check {ls : List Link} (h : ∀ l ∈ ls, checkLink l = true) :
@@ -263,9 +268,9 @@ theorem map_normLink_of_check {ls : List Link} (h : ∀ l ∈ ls, checkLink l = 
     simp [normLink_of_check (h x (List.mem_cons_self ..)), ih (fun l hl => h l (List.mem_cons_of_mem _ hl))]
 
 theorem decodePB_encodePB_checked (ls : List Link) (d : Option Bytes)
-    (hc : ∀ l ∈ ls, checkLink l = true) (hlen : (encodePB ls d).length < 2 ^ 64) :
+    (hc : ∀ l ∈ ls, checkLink l = true) (hcid : ∀ l ∈ ls, cidWf l.cid) (hlen : (encodePB ls d).length < 2 ^ 64) :
     decodePB (encodePB ls d) = some (sortLinks ls, d) := by
-  rw [decodePB_encodePB ls d hlen, filter_defined_of_check hc,
+  rw [decodePB_encodePB ls d hlen hcid, filter_defined_of_check hc,
     map_normLink_of_check (fun l hl => hc l (mem_sortLinks.1 hl))]
 
 /-- sorting in place does not change the encoding -/
@@ -289,23 +294,28 @@ structure Inv (P : Params B C) (n : Node B C) : Prop where
   /-- a cached CID that can be returned (the encoding is still cached) is the hash of that encoding
   under the builder in force -/
   cch : ∀ c e, n.cached = some c → n.encoded = some e → c = P.sum (eff P n) e
-  /-- links are sorted unless flagged dirty -/
-  srt : n.linksDirty = false → n.links.Pairwise (fun a b => nameLe a b = true)
   /-- every link passed `checkLink` -/
   chk : ∀ l ∈ n.links, checkLink l = true
+  /-- every link's CID is a well-formed CID (true of every Go `cid.Cid` value that is defined) -/
+  cids : ∀ l ∈ n.links, cidWf l.cid
 
 theorem inv_fresh (P : Params B C) (d : Option Bytes) : Inv P (fresh d : Node B C) :=
   ⟨by simp [fresh], by simp [fresh], by simp [fresh], by simp [fresh]⟩
 
-theorem inv_addLink (P : Params B C) (n : Node B C) (l : Link) (h : Inv P n) : Inv P (addLink n l).1 := by
+theorem inv_addLink (P : Params B C) (n : Node B C) (l : Link) (h : Inv P n)
+    (hl : checkLink l = true → cidWf l.cid) : Inv P (addLink n l).1 := by
   unfold addLink
   by_cases hc : checkLink l = true
   · simp only [hc, Bool.not_true, Bool.false_eq_true, if_false]
-    refine ⟨by simp, by simp, by simp, ?_⟩
-    intro x hx
-    rcases List.mem_append.1 hx with hx | hx
-    · exact h.chk x hx
-    · simp at hx; subst hx; exact hc
+    refine ⟨by simp, by simp, ?_, ?_⟩
+    · intro x hx
+      rcases List.mem_append.1 hx with hx | hx
+      · exact h.chk x hx
+      · simp at hx; subst hx; exact hc
+    · intro x hx
+      rcases List.mem_append.1 hx with hx | hx
+      · exact h.cids x hx
+      · simp at hx; subst hx; exact hl hc
   · simp [hc]; exact h
 
 theorem inv_removeLink (P : Params B C) (n : Node B C) (nm : Bytes) (h : Inv P n) :
@@ -314,49 +324,51 @@ theorem inv_removeLink (P : Params B C) (n : Node B C) (nm : Bytes) (h : Inv P n
   simp only []
   split
   · exact h
-  · refine ⟨by simp, by simp, by simp, ?_⟩
-    intro x hx
-    exact h.chk x (List.mem_filter.1 hx).1
+  · refine ⟨by simp, by simp, ?_, ?_⟩
+    · intro x hx
+      exact h.chk x (List.mem_filter.1 hx).1
+    · intro x hx
+      exact h.cids x (List.mem_filter.1 hx).1
 
-theorem inv_setLinks (P : Params B C) (n : Node B C) (ls : List Link) (h : Inv P n) :
-    Inv P (setLinks n ls).1 := by
+theorem inv_setLinks (P : Params B C) (n : Node B C) (ls : List Link) (h : Inv P n)
+    (hl : ∀ l ∈ ls, cidWf l.cid) : Inv P (setLinks n ls).1 := by
   unfold setLinks
   by_cases hc : ls.all checkLink = true
   · simp only [hc, Bool.not_true, Bool.false_eq_true, if_false]
-    exact ⟨by simp, by simp, by simp, List.all_eq_true.1 hc⟩
+    exact ⟨by simp, by simp, List.all_eq_true.1 hc, hl⟩
   · simp [hc]; exact h
 
 theorem inv_setData (P : Params B C) (n : Node B C) (d : Option Bytes) (h : Inv P n) :
     Inv P (setData n d) :=
-  ⟨by simp [setData], by simp [setData], h.srt, h.chk⟩
+  ⟨by simp [setData], by simp [setData], h.chk, h.cids⟩
 
 theorem inv_setBuilder (P : Params B C) (n : Node B C) (b : Option B) (h : Inv P n) :
     Inv P (setBuilder P n b).1 := by
   cases b with
-  | none => exact ⟨h.enc, by simp [setBuilder], h.srt, h.chk⟩
+  | none => exact ⟨h.enc, by simp [setBuilder], h.chk, h.cids⟩
   | some b =>
     simp only [setBuilder]
     split
     · exact h
-    · exact ⟨h.enc, by simp, h.srt, h.chk⟩
+    · exact ⟨h.enc, by simp, h.chk, h.cids⟩
 
 theorem inv_copy (P : Params B C) (n : Node B C) (h : Inv P n) : Inv P (copy n) := by
   refine ⟨by simp [copy], by simp [copy], ?_, ?_⟩
-  · intro _
-    simp only [copy]
-    split
-    · exact sortLinks_sorted _
-    · exact List.Pairwise.nil
   · intro l hl
     simp only [copy] at hl
     split at hl
     · exact h.chk l (mem_sortLinks.1 hl)
     · cases hl
+  · intro l hl
+    simp only [copy] at hl
+    split at hl
+    · exact h.cids l (mem_sortLinks.1 hl)
+    · cases hl
 
 theorem inv_cleanLinks (P : Params B C) (n : Node B C) (h : Inv P n) : Inv P (cleanLinks n) := by
   unfold cleanLinks
   split
-  · exact ⟨by simp, by simp, fun _ => sortLinks_sorted _, fun l hl => h.chk l (mem_sortLinks.1 hl)⟩
+  · exact ⟨by simp, by simp, fun l hl => h.chk l (mem_sortLinks.1 hl), fun l hl => h.cids l (mem_sortLinks.1 hl)⟩
   · exact h
 
 theorem cleanLinks_links (n : Node B C) :
@@ -379,12 +391,11 @@ theorem encodePB_linksAfterRead (P : Params B C) (n : Node B C) (h : Inv P n) :
   · exact encodePB_sortLinks _ _ h.chk
   · rfl
 
-theorem linksAfterRead_eq_sort (P : Params B C) (n : Node B C) (h : Inv P n) :
-    linksAfterRead n = sortLinks n.links := by
+theorem sortLinks_linksAfterRead (n : Node B C) : sortLinks (linksAfterRead n) = sortLinks n.links := by
   unfold linksAfterRead
   split
+  · exact sortLinks_idem _
   · rfl
-  · next hd => exact (sortLinks_of_sorted (h.srt (by simpa using hd))).symm
 
 /-- `Marshal()` returns the encoding of the current links and data -/
 theorem marshal_spec (P : Params B C) (n : Node B C) (h : Inv P n) :
@@ -402,10 +413,10 @@ theorem reencode_spec (P : Params B C) (n : Node B C) (force : Bool) (h : Inv P 
     (reencode n force).builder = n.builder ∧
     (reencode n force).linksDirty = false := by
   have hchk := h.chk
-  have hsrt := h.srt
+  have hcids := h.cids
   have henc := h.enc
   obtain ⟨links, dirty, data, encoded, cached, builder⟩ := n
-  simp only at hchk hsrt henc
+  simp only at hchk hcids henc
   cases dirty with
   | true =>
     have he := encodePB_sortLinks links data hchk
@@ -414,18 +425,17 @@ theorem reencode_spec (P : Params B C) (n : Node B C) (force : Bool) (h : Inv P 
     refine ⟨⟨?_, ?_, ?_, ?_⟩, trivial, trivial, trivial, trivial, trivial⟩
     · intro e hh; simp at hh; subst hh; exact he.symm
     · intro c e hh; simp at hh
-    · intro _; exact sortLinks_sorted _
     · intro l hl; exact hchk l (mem_sortLinks.1 hl)
+    · intro l hl; exact hcids l (mem_sortLinks.1 hl)
   | false =>
-    have hs := hsrt rfl
     by_cases hc : (encoded.isNone || force) = true
     · simp only [reencode, marshal, getLinks, cleanLinks, linksAfterRead, Bool.or_false, hc,
         if_true, Bool.false_eq_true, if_false]
       refine ⟨⟨?_, ?_, ?_, ?_⟩, trivial, trivial, trivial, trivial, trivial⟩
       · intro e hh; simp at hh; exact hh.symm
       · intro c e hh; simp at hh
-      · intro _; exact hs
       · exact hchk
+      · exact hcids
     · simp only [reencode, linksAfterRead, Bool.or_false, hc, Bool.false_eq_true, if_false]
       cases encoded with
       | none => simp at hc
@@ -443,11 +453,11 @@ theorem fillCached_spec (P : Params B C) (n : Node B C) (e : Bytes) (h : Inv P n
     (fillCached P n).1.linksDirty = n.linksDirty ∧
     Inv P (fillCached P n).1 := by
   have hchk := h.chk
-  have hsrt := h.srt
+  have hcids := h.cids
   have henc := h.enc
   have hcch := h.cch
   obtain ⟨links, dirty, data, encoded, cached, builder⟩ := n
-  simp only at hchk hsrt henc hcch he
+  simp only at hchk hcids henc hcch he
   subst he
   cases cached with
   | some c =>
@@ -458,14 +468,14 @@ theorem fillCached_spec (P : Params B C) (n : Node B C) (e : Bytes) (h : Inv P n
     cases builder with
     | none =>
       simp only [fillCached, Option.getD_some, cidBuilder, eff, Option.getD_none]
-      refine ⟨trivial, trivial, trivial, trivial, trivial, trivial, trivial, ⟨henc, ?_, hsrt, hchk⟩⟩
+      refine ⟨trivial, trivial, trivial, trivial, trivial, trivial, trivial, ⟨henc, ?_, hchk, hcids⟩⟩
       intro c e' h1 h2
       simp at h1 h2
       subst h2
       simp [eff, ← h1]
     | some b =>
       simp only [fillCached, Option.getD_some, cidBuilder, eff]
-      refine ⟨trivial, trivial, trivial, trivial, trivial, trivial, trivial, ⟨henc, ?_, hsrt, hchk⟩⟩
+      refine ⟨trivial, trivial, trivial, trivial, trivial, trivial, trivial, ⟨henc, ?_, hchk, hcids⟩⟩
       intro c e' h1 h2
       simp at h1 h2
       subst h2
@@ -501,11 +511,130 @@ theorem reload_spec (P : Params B C) (n : Node B C) (h : Inv P n)
       m.builder = none ∧ m.encoded = some (encodePB n.links n.data) := by
   have hs := (encodeProtobuf_spec P n false h).1
   unfold reload fromBytes rawData
-  rw [hs, decodePB_encodePB_checked _ _ h.chk hlen]
+  rw [hs, decodePB_encodePB_checked _ _ h.chk h.cids hlen]
   refine ⟨_, rfl, ⟨?_, ?_, ?_, ?_⟩, rfl, rfl, rfl, rfl⟩
   · intro e he; simp at he; rw [← he]; exact (encodePB_sortLinks _ _ h.chk).symm
   · intro c e hc; simp at hc
-  · intro _; exact sortLinks_sorted _
   · intro l hl; exact h.chk l (mem_sortLinks.1 hl)
+  · intro l hl; exact h.cids l (mem_sortLinks.1 hl)
+
+
+/-! ### JSON, UpdateNodeLink, Stat, DecodeProtobufBlock -/
+
+theorem inv_unmarshalJSON (P : Params B C) (n : Node B C) (d : Option Bytes) (ls : List Link) (h : Inv P n)
+    (hl : ∀ l ∈ ls, cidWf l.cid) : Inv P (unmarshalJSON n d ls).1 := by
+  unfold unmarshalJSON
+  by_cases hc : ls.all checkLink = true
+  · simp only [hc, Bool.not_true, Bool.false_eq_true, if_false]
+    exact ⟨by simp, by simp, List.all_eq_true.1 hc, hl⟩
+  · simp [hc]; exact h
+
+theorem inv_updateNodeLink (P : Params B C) (n : Node B C) (l : Link) (h : Inv P n)
+    (hl : checkLink l = true → cidWf l.cid) : Inv P (updateNodeLink n l).1 :=
+  inv_addLink P _ l (inv_removeLink P _ l.name (inv_copy P n h)) hl
+
+/-- `Stat()` = three cached reads in a row -/
+theorem stat_spec (P : Params B C) (n : Node B C) (h : Inv P n) :
+    Inv P (stat P n).1 ∧ (stat P n).2.2 = some (P.sum (eff P n) (encodePB n.links n.data)) ∧
+    (stat P n).2.1.2.1 = (encodePB n.links n.data).length ∧
+    (stat P n).1.data = n.data ∧ eff P (stat P n).1 = eff P n ∧
+    sortLinks (stat P n).1.links = sortLinks n.links ∧
+    encodePB (stat P n).1.links (stat P n).1.data = encodePB n.links n.data := by
+  obtain ⟨a1, a2, a3, a4, a5, a6, a7, a8⟩ := encodeProtobuf_spec P n false h
+  obtain ⟨b1, b2, b3, b4, b5, b6, b7, b8⟩ := encodeProtobuf_spec P (encodeProtobuf P n false).1 false a8
+  obtain ⟨c1, c2, c3, c4, c5, c6, c7, c8⟩ :=
+    encodeProtobuf_spec P (encodeProtobuf P (encodeProtobuf P n false).1 false).1 false b8
+  have e1 : encodePB (encodeProtobuf P n false).1.links (encodeProtobuf P n false).1.data = encodePB n.links n.data := by
+    rw [a3, a4]; exact encodePB_linksAfterRead P n h
+  have e2 : encodePB (encodeProtobuf P (encodeProtobuf P n false).1 false).1.links
+      (encodeProtobuf P (encodeProtobuf P n false).1 false).1.data = encodePB n.links n.data := by
+    rw [b3, b4, encodePB_linksAfterRead P _ a8, e1]
+  have s1 : sortLinks (encodeProtobuf P n false).1.links = sortLinks n.links := by
+    rw [a3]; exact sortLinks_linksAfterRead n
+  have s2 : sortLinks (encodeProtobuf P (encodeProtobuf P n false).1 false).1.links = sortLinks n.links := by
+    rw [b3, sortLinks_linksAfterRead, s1]
+  refine ⟨c8, ?_, a1 ▸ rfl, ?_, ?_, ?_, ?_⟩
+  · show (encodeProtobuf P (encodeProtobuf P (encodeProtobuf P n false).1 false).1 false).1.cached = _
+    rw [c2, e2, b5, a5]
+  · show (encodeProtobuf P (encodeProtobuf P (encodeProtobuf P n false).1 false).1 false).1.data = _
+    rw [c4, b4, a4]
+  · show eff P (encodeProtobuf P (encodeProtobuf P (encodeProtobuf P n false).1 false).1 false).1 = _
+    rw [c5, b5, a5]
+  · show sortLinks (encodeProtobuf P (encodeProtobuf P (encodeProtobuf P n false).1 false).1 false).1.links = _
+    rw [c3, sortLinks_linksAfterRead, s2]
+  · show encodePB (encodeProtobuf P (encodeProtobuf P (encodeProtobuf P n false).1 false).1 false).1.links
+      (encodeProtobuf P (encodeProtobuf P (encodeProtobuf P n false).1 false).1 false).1.data = _
+    rw [c3, c4, encodePB_linksAfterRead P _ b8, e2]
+
+/-- `DecodeProtobufBlock` of the node's own block: coherent, same data, sorted links, and the CID of the
+block stays cached with a builder that sums like the one in force -/
+theorem reloadBlock_spec (P : Params B C) (n : Node B C) (h : Inv P n)
+    (hlen : (encodePB n.links n.data).length < 2 ^ 64) :
+    Inv P (step P n .reloadBlock).1 ∧ (step P n .reloadBlock).1.data = n.data ∧
+    (step P n .reloadBlock).1.links = sortLinks n.links ∧ eff P (step P n .reloadBlock).1 = eff P n := by
+  obtain ⟨a1, a2, a3, a4, a5, a6, a7, a8⟩ := encodeProtobuf_spec P n false h
+  have hd := decodePB_encodePB_checked _ _ h.chk h.cids hlen
+  have hb : (encodeProtobuf P n false).1.builder.getD P.v0 = eff P n := a5
+  simp only [step, cid, a2, a7, fromBlock, hd, hb]
+  refine ⟨⟨?_, ?_, ?_, ?_⟩, trivial, trivial, ?_⟩
+  rotate_left 4
+  · simp [eff]
+  · intro e he; simp at he; rw [← he]; exact (encodePB_sortLinks _ _ h.chk).symm
+  · intro c e hc he
+    simp at hc he
+    rw [← hc, ← he]; simp [eff]
+  · intro l hl; exact h.chk l (mem_sortLinks.1 hl)
+  · intro l hl; exact h.cids l (mem_sortLinks.1 hl)
+
+/-! ### sortedness of the links held (separate from cache coherence: `UnmarshalJSON` may install an
+unsorted list without flagging it) -/
+
+/-- links are sorted by name unless flagged dirty -/
+def Srt (n : Node B C) : Prop := n.linksDirty = false → n.links.Pairwise (fun a b => nameLe a b = true)
+
+theorem srt_fresh (d : Option Bytes) : Srt (fresh d : Node B C) := by
+  intro _; exact List.Pairwise.nil
+
+theorem srt_of_dirty (n : Node B C) (h : n.linksDirty = true) : Srt n := by
+  intro hd; rw [h] at hd; cases hd
+
+theorem srt_addLink (n : Node B C) (l : Link) (h : Srt n) : Srt (addLink n l).1 := by
+  unfold addLink; split
+  · exact h
+  · exact srt_of_dirty _ rfl
+
+theorem srt_removeLink (n : Node B C) (nm : Bytes) (h : Srt n) : Srt (removeLink n nm).1 := by
+  unfold removeLink; simp only []; split
+  · exact h
+  · exact srt_of_dirty _ rfl
+
+theorem srt_setLinks (n : Node B C) (ls : List Link) (h : Srt n) : Srt (setLinks n ls).1 := by
+  unfold setLinks; split
+  · exact h
+  · exact srt_of_dirty _ rfl
+
+theorem srt_setBuilder (P : Params B C) (n : Node B C) (b : Option B) (h : Srt n) : Srt (setBuilder P n b).1 := by
+  cases b with
+  | none => exact h
+  | some b => simp only [setBuilder]; split <;> exact h
+
+theorem srt_copy (n : Node B C) : Srt (copy n) := by
+  intro _
+  simp only [copy]
+  split
+  · exact sortLinks_sorted _
+  · exact List.Pairwise.nil
+
+theorem srt_cleanLinks (n : Node B C) (h : Srt n) : Srt (cleanLinks n) := by
+  unfold cleanLinks; split
+  · intro _; exact sortLinks_sorted _
+  · exact h
+
+theorem srt_of_links (n m : Node B C) (h : Srt n) (hl : m.links = linksAfterRead n) : Srt m := by
+  intro _
+  rw [hl]; unfold linksAfterRead
+  split
+  · exact sortLinks_sorted _
+  · next hd => exact h (by simpa using hd)
 
 end C11
